@@ -48,6 +48,11 @@ pub struct ServerParams {
     pub server_channel: u16,
     pub stream_id: u8,
     pub session_id: u32,
+    /// static channel ids announced in the server network data (the client under test requests none)
+    pub announced_channels: Vec<u16>,
+    /// licensing ERROR_ALERT contents (7 / 2 = STATUS_VALID_CLIENT / ST_NO_TRANSITION)
+    pub license_error_code: u32,
+    pub license_state_transition: u32,
 }
 
 impl ServerParams {
@@ -82,6 +87,9 @@ impl ServerParams {
             server_channel: 0x03ea,
             stream_id: 2,
             session_id: 0,
+            announced_channels: Vec::new(),
+            license_error_code: 7,
+            license_state_transition: 2,
         }
     }
 
@@ -289,7 +297,15 @@ pub fn gcc_blocks(p: &ServerParams, client_requested: u32) -> Wr {
                 out.u16le("sc_sec.type", 0x0c02).u16le("sc_sec.length", 12).u32le("sc_sec.encryptionMethod", 0).u32le("sc_sec.encryptionLevel", 0);
             }
             _ => {
-                out.u16le("sc_net.type", 0x0c03).u16le("sc_net.length", 8).u16le("sc_net.MCSChannelId", p.io_channel).u16le("sc_net.channelCount", 0);
+                let n = p.announced_channels.len();
+                let pad = n % 2;
+                out.u16le("sc_net.type", 0x0c03).u16le("sc_net.length", (8 + 2 * (n + pad)) as u16).u16le("sc_net.MCSChannelId", p.io_channel).u16le("sc_net.channelCount", n as u16);
+                for c in &p.announced_channels {
+                    out.u16le("sc_net.channelId", *c);
+                }
+                if pad == 1 {
+                    out.u16le("sc_net.pad", 0);
+                }
             }
         }
     }
@@ -384,7 +400,7 @@ pub fn license(p: &ServerParams) -> Wr {
     } else if p.license_kind == 1 {
         let size = 4 + 4 + 4 + 4 + p.license_blob.len();
         w.u8("lic.bMsgType", 0xff).u8("lic.flags", 0x03).u16le("lic.wMsgSize", size as u16);
-        w.u32le("lic.dwErrorCode", 7).u32le("lic.dwStateTransition", 2).u16le("lic.wBlobType", 4).u16le("lic.wBlobLen", p.license_blob.len() as u16).bytes("lic.blob", &p.license_blob);
+        w.u32le("lic.dwErrorCode", p.license_error_code).u32le("lic.dwStateTransition", p.license_state_transition).u16le("lic.wBlobType", 4).u16le("lic.wBlobLen", p.license_blob.len() as u16).bytes("lic.blob", &p.license_blob);
     } else {
         let size = 4 + p.license_blob.len();
         w.u8("lic.bMsgType", 0x03).u8("lic.flags", 0x03).u16le("lic.wMsgSize", size as u16).bytes("lic.body", &p.license_blob);
@@ -429,8 +445,12 @@ pub fn demand_active(p: &ServerParams, share_id: u32) -> Wr {
 }
 
 pub fn deactivate_all_raw(p: &ServerParams, share_id: u32) -> Wr {
+    deactivate_all_raw_with(p, share_id, &[0])
+}
+
+pub fn deactivate_all_raw_with(p: &ServerParams, share_id: u32, source_descriptor: &[u8]) -> Wr {
     let mut b = Wr::new();
-    b.u32le("dea.shareId", share_id).u16le("dea.lengthSourceDescriptor", 1).bytes("dea.sourceDescriptor", &[0]);
+    b.u32le("dea.shareId", share_id).u16le("dea.lengthSourceDescriptor", source_descriptor.len() as u16).bytes("dea.sourceDescriptor", source_descriptor);
     share_control(p, 0x16, &b)
 }
 
